@@ -78,6 +78,31 @@ pub fn emit_data(kind: &'static str, a: u64, b: u64, data: &[u8]) {
     }
 }
 
+/// Marks the interval during which the current thread owns a lock (mode 1 = shared,
+/// 2 = exclusive). Created right after the acquisition and dropped right before the release,
+/// so the logged interval lies inside the real one.
+pub struct LockSpan(&'static str);
+
+impl LockSpan {
+    #[inline]
+    pub fn new(name: &'static str, mode: u64) -> Self {
+        emit("lk", name.as_bytes(), 1, mode, 0);
+        LockSpan(name)
+    }
+    /// For a lock taken by a temporary inside one statement: logged just before the statement.
+    #[inline]
+    pub fn around(name: &'static str, mode: u64) -> Self {
+        emit("lk", name.as_bytes(), 1, mode, 1);
+        LockSpan(name)
+    }
+}
+
+impl Drop for LockSpan {
+    fn drop(&mut self) {
+        emit("lk", self.0.as_bytes(), 0, 0, 0);
+    }
+}
+
 // ---------------------------------------------------------------- clock
 
 static NOW_ON: AtomicBool = AtomicBool::new(false);
